@@ -1,3 +1,4 @@
+import SeqVerif.Base.Search
 /-!
 # Go fixed-width integers, slices and `time` values over `Int` / `List` (core-only)
 
@@ -118,6 +119,88 @@ theorem slice_from {α : Type} (xs : List α) (a : Nat) : slice xs (a : Int) (le
 theorem slice_to {α : Type} (xs : List α) (b : Nat) : slice xs 0 (b : Int) = xs.take b := by
   simp [slice]
 
+/-- `xs[i] = v` (the translator guards `0 ≤ i < len(xs)`) -/
+def set {α : Type} (xs : List α) (i : Int) (v : α) : List α := xs.set i.toNat v
+
+theorem set_natCast {α : Type} (xs : List α) (i : Nat) (v : α) : set xs (i : Int) v = xs.set i v := by simp [set]
+
+/-! ## encoding/binary.LittleEndian on byte slices -/
+
+/-- the `k` little-endian bytes of `v` (`PutUintN`) -/
+def leBytes : Nat → Int → List Int
+  | 0, _ => []
+  | k + 1, v => v % 256 :: leBytes k (v / 256)
+
+/-- `UintN(xs)`: the first `k` bytes as a number (the translator guards `k ≤ len(xs)`) -/
+def leRead : Nat → List Int → Int
+  | 0, _ => 0
+  | _ + 1, [] => 0
+  | k + 1, b :: bs => b + 256 * leRead k bs
+
+/-- `PutUintN(xs[off:], v)`: the `k` bytes at `off` replaced (the translator guards `0 ≤ off`, `off + k ≤ len(xs)`) -/
+def lePut (k : Nat) (xs : List Int) (off v : Int) : List Int :=
+  xs.take off.toNat ++ leBytes k v ++ xs.drop (off.toNat + k)
+
+theorem leBytes_length (k : Nat) (v : Int) : (leBytes k v).length = k := by
+  induction k generalizing v with
+  | zero => rfl
+  | succ k ih => simp [leBytes, ih]
+
+/-! ## sort.Search -/
+
+/-- the loop of `sort.Search(n, p)`: `for i < j { h := int(uint(i+j) >> 1); if !p(h) { i = h + 1 } else { j = h } }`
+with a predicate that may panic -/
+def searchLoop (p : Int → Option Bool) : Nat → Int → Int → Option Int
+  | 0, i, _ => some i
+  | fuel + 1, i, j =>
+    if i < j then
+      (p ((i + j) / 2)).bind fun b => if b then searchLoop p fuel i ((i + j) / 2) else searchLoop p fuel ((i + j) / 2 + 1) j
+    else some i
+
+/-- `sort.Search(n, p)` (at most `n` halvings are needed) -/
+def sortSearch (n : Int) (p : Int → Option Bool) : Option Int := searchLoop p n.toNat 0 n
+
+theorem searchLoop_eq (p : Int → Option Bool) (q : Nat → Bool) (n : Nat) (h : ∀ i : Nat, i < n → p i = some (q i)) :
+    ∀ (fuel i j : Nat), j - i ≤ fuel → j ≤ n → searchLoop p fuel i j = some ((SV.searchGo q i j : Nat) : Int) := by
+  intro fuel
+  induction fuel with
+  | zero =>
+    intro i j hf hj
+    have : ¬ i < j := by omega
+    rw [searchLoop, SV.searchGo]; simp [this]
+  | succ fuel ih =>
+    intro i j hf hj
+    rw [searchLoop, SV.searchGo]
+    by_cases hij : i < j
+    · have hij' : (i : Int) < (j : Int) := by omega
+      have hm : ((i : Int) + (j : Int)) / 2 = (((i + j) / 2 : Nat) : Int) := by omega
+      simp only [hij, hij', if_true, dif_pos, hm]
+      rw [h ((i + j) / 2) (by omega)]
+      simp only [Option.bind_some]
+      cases hq : q ((i + j) / 2) with
+      | true =>
+        simp only [if_true]
+        exact ih i ((i + j) / 2) (by omega) (by omega)
+      | false =>
+        have e : (((i + j) / 2 : Nat) : Int) + 1 = (((i + j) / 2 + 1 : Nat) : Int) := by omega
+        simp only [Bool.false_eq_true, if_false, e]
+        exact ih ((i + j) / 2 + 1) j (by omega) hj
+    · have hij' : ¬ (i : Int) < (j : Int) := by omega
+      simp [hij, hij']
+
+/-- when the predicate does not panic on `[0, n)` the result is `SV.searchGo` (the hand models' binary search) -/
+theorem sortSearch_eq (p : Int → Option Bool) (q : Nat → Bool) (n : Nat) (h : ∀ i : Nat, i < n → p i = some (q i)) :
+    sortSearch n p = some ((SV.searchGo q 0 n : Nat) : Int) := by
+  unfold sortSearch
+  have := searchLoop_eq p q n h n 0 n (by omega) (by omega)
+  simpa using this
+
+theorem sortSearch_neg (p : Int → Option Bool) {n : Int} (h : n ≤ 0) : sortSearch n p = some 0 := by
+  unfold sortSearch
+  cases hn : n.toNat with
+  | zero => rfl
+  | succ k => omega
+
 /-- a `[]uintN` whose elements are given as naturals, as the translated functions see it -/
 def ints (xs : List Nat) : List Int := xs.map Int.ofNat
 
@@ -130,6 +213,47 @@ theorem getD_of_lt {α : Type} (xs : List α) (i : Nat) (d : α) (h : i < xs.len
   simp [List.getD_eq_getElem?_getD, h]
 theorem max_one_cast (q : Nat) : max (1 : Int) (q : Int) = ((max 1 q : Nat) : Int) := by omega
 
+theorem ints_append (a b : List Nat) : ints (a ++ b) = ints a ++ ints b := by simp [ints]
+theorem ints_take (a : List Nat) (n : Nat) : ints (a.take n) = (ints a).take n := by simp [ints, List.map_take]
+theorem ints_drop (a : List Nat) (n : Nat) : ints (a.drop n) = (ints a).drop n := by simp [ints, List.map_drop]
+theorem ints_length (a : List Nat) : (ints a).length = a.length := by simp [ints]
+theorem slice_ints (a : List Nat) (lo hi : Nat) : slice (ints a) (lo : Int) (hi : Int) = ints ((a.take hi).drop lo) := by
+  simp [slice, ints, List.map_take, List.map_drop]
+theorem set_ints (a : List Nat) (i v : Nat) : set (ints a) (i : Int) (v : Int) = ints (a.set i v) := by
+  simp [set, ints, List.map_set]
+
+/-- `leBytes` / `leRead` on naturals (the shape the hand models use) -/
+def leBytesN : Nat → Nat → List Nat
+  | 0, _ => []
+  | k + 1, n => n % 256 :: leBytesN k (n / 256)
+def leReadN : Nat → List Nat → Nat
+  | 0, _ => 0
+  | _ + 1, [] => 0
+  | k + 1, b :: bs => b + 256 * leReadN k bs
+
+theorem leBytes_natCast (k n : Nat) : leBytes k (n : Int) = ints (leBytesN k n) := by
+  induction k generalizing n with
+  | zero => rfl
+  | succ k ih =>
+    have h1 : (n : Int) % 256 = ((n % 256 : Nat) : Int) := by omega
+    have h2 : (n : Int) / 256 = ((n / 256 : Nat) : Int) := by omega
+    simp only [leBytes, leBytesN, h1, h2, ih]
+    simp [ints]
+theorem leRead_ints (k : Nat) (bs : List Nat) : leRead k (ints bs) = ((leReadN k bs : Nat) : Int) := by
+  induction k generalizing bs with
+  | zero => rfl
+  | succ k ih =>
+    cases bs with
+    | nil => rfl
+    | cons b bs =>
+      have : ints (b :: bs) = (b : Int) :: ints bs := by simp [ints]
+      rw [this]
+      simp only [leRead, leReadN, ih]
+      omega
+theorem lePut_ints (k : Nat) (a : List Nat) (off v : Nat) :
+    lePut k (ints a) (off : Int) (v : Int) = ints (a.take off ++ leBytesN k v ++ a.drop (off + k)) := by
+  simp [lePut, leBytes_natCast, ints_append, ints_take, ints_drop]
+
 /-! ## package `time` (trusted reading of the standard library) -/
 
 /-- `time.UnixMilli(ms)` as nanoseconds since the epoch -/
@@ -138,6 +262,8 @@ def timeUnixMilli (ms : Int) : Int := ms * 1000000
 def timeUnixNano (t : Int) : Int := wrapI64 t
 /-- `t.UnixMilli()` -/
 def timeToUnixMilli (t : Int) : Int := t / 1000000
+/-- `t.Add(d)` (exact: `time.Time` covers far more than the int64 nanosecond range) -/
+def timeAdd (t d : Int) : Int := t + d
 /-- `t.Sub(u)`: the difference saturated to the `time.Duration` range -/
 def timeSub (t u : Int) : Int :=
   if t - u > 9223372036854775807 then 9223372036854775807
